@@ -44,4 +44,6 @@ SClose(a, b, ppm) ==
           tol == SMul(big, Norm(1, ppm, -6))
       IN SLeq(d, tol)
 SIsZero(a) == a.s = 0
+(* |a - b| <= scale * ppm / 10^6: closeness relative to a given magnitude (results that cancel to zero) *)
+SCloseTo(a, b, scale, ppm) == a = b \/ SLeq(SAbs(SSub(a, b)), SAdd(SMul(SAbs(scale), Norm(1, ppm, -6)), Norm(1, 1, -12)))
 =============================================================================
